@@ -9,10 +9,28 @@ use std::fmt::Debug;
 use std::fmt::Display;
 
 use anyhow::Result;
+use lazy_static::lazy_static;
+use regex::Regex;
 use serde::Serialize;
 use serde::ser::SerializeMap;
 
 use crate::escaping::Escaper;
+use crate::rules::registry::RuleRegistry;
+
+lazy_static! {
+    /// How a line of a test document is split into expression, kind and quantifier
+    static ref EXPECTATION_LINE: Regex = RuleRegistry::default()
+        .to_expectation_regex()
+        .expect("expectation regex must compile");
+}
+
+/// Whether the given line ends in something that reads as a ` (<kind><quantifier>)`
+/// modifier when it is parsed as an expectation
+fn ends_in_modifier(line: &str) -> bool {
+    EXPECTATION_LINE.captures(line).is_some_and(|captures| {
+        captures.get(2).is_some_and(|kind| !kind.as_str().is_empty()) || captures.get(3).is_some()
+    })
+}
 
 /// Rule implements the line-level comparisons of [`crate::expectation::Expectation`]s
 pub trait Rule: RuleClone + Debug + Send {
@@ -44,6 +62,9 @@ pub trait Rule: RuleClone + Debug + Send {
         if kind == "equal" {
             if escaper.has_unprintable(&expression) {
                 format!("{rendered} (escaped{quantifier})")
+            } else if quantifier.is_empty() && ends_in_modifier(&rendered) {
+                // the kind must be named, or the end of the line is taken for the modifier
+                format!("{rendered} (equal)")
             } else {
                 format!("{rendered}{equal_quantifier}")
             }
